@@ -279,12 +279,12 @@ class RangeLiteral(Expression):
     def _make_range(self, start: Any, stop: Any) -> range:
         try:
             start = to_int(start)
-        except ValueError:
+        except (ValueError, TypeError):
             start = 0
 
         try:
             stop = to_int(stop)
-        except ValueError:
+        except (ValueError, TypeError):
             stop = 0
 
         # Descending ranges don't work
@@ -1656,6 +1656,12 @@ class LoopExpression(Expression):
     ) -> tuple[Iterator[object], int]:
         offset_key = f"{self.identifier}-{self.iterable}"
 
+        # Negative limits and offsets are treated as zero.
+        if limit is not None:
+            limit = max(limit, 0)
+        if isinstance(offset, int):
+            offset = max(offset, 0)
+
         if limit is None and offset is None:
             context.stopindex(key=offset_key, index=length)
             if self.reversed:
@@ -2081,7 +2087,11 @@ def _contains(token: TokenT, left: object, right: object) -> bool:
     if isinstance(left, str):
         return str(right) in left
     if isinstance(left, Collection):
-        return right in left
+        try:
+            return right in left
+        except TypeError:
+            # An unhashable value can't be a member of a mapping or set.
+            return False
 
     raise LiquidTypeError(
         f"'in' and 'contains' are not supported between '{left.__class__.__name__}' "
